@@ -20,7 +20,7 @@ TARGETS = ['boltons.cacheutils.ThresholdCounter.add (E2: AST -> transition relat
 THRESHOLDS = [0.9, 0.5, 0.34, 0.3, 0.25, 0.2]       # floor(1/t) = 1, 2, 2, 3, 4, 5
 BOUNDS = {
     'quick': {'stream_length': '0..7 additions (E1)', 'thresholds': THRESHOLDS,
-              'delivery': 'add, update(list), update(iterator), update(mapping), update(**kw), mixed',
+              'delivery': 'add, update(list), update(iterator), update(mapping), update(**kw), mixed, mapping+kw in one call, one add followed by bulk counts (x2 mapping, x3 keywords)',
               'size_bound_bmc': 'W=5, N=34 additions (E2)'},
     'thorough': {'stream_length': '0..9 additions', 'size_bound_bmc': 'W in 5,6,12; N up to 60'},
 }
@@ -30,7 +30,7 @@ OUT_OF_CLAIM = ['streams longer than the bound for the E1 clauses', 'thresholds 
                 'get_commonality() float value']
 STUBS = []
 
-FORMS = ['add', 'update_list', 'update_iter', 'update_mapping', 'update_kw', 'mixed', 'mapping_and_kw', 'list_and_kw']
+FORMS = ['add', 'update_list', 'update_iter', 'update_mapping', 'update_kw', 'mixed', 'mapping_and_kw', 'list_and_kw', 'add_then_bulk']
 
 
 def check_state(tc, truth, total, W, thr):
@@ -126,6 +126,28 @@ def _body(ti, form, n, ks):
         cl = check_state(tc, truth, total, W, thr)
         if cl:
             return fail(cl, 'after %s of %r + %r' % (form, first, second))
+    elif form == 'add_then_bulk':
+        # one add, then one update whose counts are multiples (a mapping with every count doubled, keyword counts tripled):
+        # bulk counts step over several bucket boundaries in one call
+        for mult, how in ((2, 'mapping'), (3, 'kw')):
+            tc = ThresholdCounter(threshold=thr)
+            truth = collections.Counter()
+            total = 0
+            if keys:
+                tc.add(keys[0])
+                truth[keys[0]] += 1
+                total += 1
+            bulk = {k: c * mult for k, c in collections.Counter(keys[1:]).items()}
+            if how == 'mapping':
+                tc.update(bulk)
+            else:
+                tc.update(None, **bulk)
+            for k, c in bulk.items():
+                truth[k] += c
+                total += c
+            cl = check_state(tc, truth, total, W, thr)
+            if cl:
+                return fail(cl, 'after add(%r) then update(%s %r)' % (keys[:1], how, bulk))
     else:
         half = n // 2
         chunks = [keys[:half], keys[half:]]
@@ -305,7 +327,7 @@ def obligations(tier):
     T = 170 if q else 1500
     for ti in range(len(THRESHOLDS)):
         for form in range(len(FORMS)):
-            if form in (1, 2, 4, 6, 7) and ti not in (1, 3):
+            if form in (1, 2, 4, 6, 7) and ti not in (1, 3):          # form 8 (bulk counts) runs for every threshold
                 continue
             need = ('dropped_keys',) if ti < 4 else ()
             obs.append(Ob('tc_stream', timeout=T, pins={'thr': ti, 'form': form, 'nmax': 7 if q else 9}, need_kinds=need))
